@@ -41,11 +41,11 @@ def _write_cfg(name, text):
     return name
 
 
-def gen_cfg(name, n, min_n, shard, nshards):
+def gen_cfg(name, n, min_n, shard, nshards, ntables=3, twin_only=False):
     return _write_cfg(name,
-                      "SPECIFICATION Spec\nCONSTANTS N = %d\n MinN = %d\n Shard = %d\n NShards = %d\n"
+                      "SPECIFICATION Spec\nCONSTANTS N = %d\n MinN = %d\n NTables = %d\n TwinOnly = %s\n Shard = %d\n NShards = %d\n"
                       " KnownDeviations = {}\nINVARIANT Post\nINVARIANT NeverCrash\nINVARIANT LiveUntouched\n"
-                      "CHECK_DEADLOCK FALSE\n" % (n, min_n, shard, nshards))
+                      "CHECK_DEADLOCK FALSE\n" % (n, min_n, ntables, "TRUE" if twin_only else "FALSE", shard, nshards))
 
 
 def generate(tier, scen):
@@ -88,13 +88,26 @@ def generate(tier, scen):
             os.remove(parts[k])
             states += results[k].distinct
             trans += results[k].generated
-    return total, states, trans, time.time() - t0, nshards
+    # the fourth table (T1's blocks under another primary key: block indices of its own).  quick: every scenario
+    # of three commits in which a commit names it, with nothing, T1 or T4 absent; thorough: all of them
+    twin = scen + ".twin"
+    res = vlib.run_tlc("PruneGen", gen_cfg("PruneGen.%s.twin.cfg" % tier, 3, 1, 0, 1, ntables=4, twin_only=(tier == "quick")),
+                       workers=vlib.NCPU, scn_out=twin, timeout=3000)
+    vlib.require_ok(res, "PruneGen four tables")
+    with open(scen, "a") as out, open(twin) as f:
+        for line in f:
+            out.write(line)
+            total += 1
+    os.remove(twin)
+    states += res.distinct
+    trans += res.generated
+    return total, states, trans, time.time() - t0, nshards + 1
 
 
 def vacuity_guard():
     """-coverage 1 on the smallest configuration: every action of the design must be taken
     (the named deviation must NOT be: it is disabled in every model-checking configuration)."""
-    cfg = gen_cfg("PruneGen.cov.cfg", 2, 1, 0, 1)
+    cfg = gen_cfg("PruneGen.cov.cfg", 2, 1, 0, 1, ntables=4)
     res = vlib.run_tlc("PruneGen", cfg, workers=2, coverage=True, timeout=600)
     vlib.require_ok(res, "PruneGen coverage run")
     zero = [z for z in res.coverage_zero if not z.startswith("SweepTablesAsCoded@")]
